@@ -2,6 +2,7 @@ package checks
 
 import (
 	"fmt"
+	"strings"
 
 	pb "github.com/google/go-tdx-guest/proto/tdx"
 	"github.com/google/go-tdx-guest/verify"
@@ -49,7 +50,8 @@ func verifyRawBoth(r *mc.Run, id string, raw []byte, o *verify.Options) error {
 		o3 = &c
 	}
 	err2 := world.SafeVerify(q, o2)
-	if wire, merr := proto.Marshal(q); merr == nil {
+	// (the wire form on a fixed third of the cases — those whose id hashes to 0 mod 3 — and on every case with few deviations)
+	if wire, merr := proto.Marshal(q); merr == nil && (hashOf(id)%3 == 0 || strings.Count(id, ",") < 2) {
 		q3 := &pb.QuoteV4{}
 		if proto.Unmarshal(wire, q3) == nil {
 			err3 := world.SafeVerify(q3, o3)
